@@ -4,7 +4,8 @@
 From Coq Require Import NArith ZArith List Bool.
 From CA Require Import Model.Lexer Model.Parser Model.BigIntOps Model.Matcher Model.Evaluator Model.Resolver Spec.Denote
   Proofs.ResolverFixP Proofs.ResolverTopP Proofs.CertifiedP Proofs.DenoteP
-  Proofs.StaticSizeP Proofs.CertUniqueP Proofs.DenoteCompleteP Proofs.C01Sound.
+  Proofs.StaticSizeP Proofs.CertUniqueP Proofs.DenoteCompleteP Proofs.C01Sound
+  Spec.Chain Proofs.C01CompleteP Proofs.C01CompleteSemP Proofs.C01Complete.
 Import ListNotations.
 Open Scope Z_scope.
 
@@ -80,3 +81,29 @@ Example C01_nonvacuous :
   no_param_assign ex_defs = true /\ data_canonical ex_ns /\
   denote true ex_defs ex_names ex_ns = DOk (17614197753865, 48) [VInt (un 0); VInt (un 8); VInt (un 9)].
 Proof. exact C01_sound_parsed_nonvacuous. Qed.
+
+(* ---------- completeness ---------- *)
+(* every size-static program the definition accepts is assembled, to the same bits and symbol values, as soon as the
+   budget reaches Spec.Chain.budget_total = 3 + chain (chain = extra passes the constants need, computed by an abstract
+   run of the passes on which symbols are known; length ns + 5 where that syntactic analysis gives up).  No
+   condition on the constants is needed here; the pass count reported is within the bound. *)
+Theorem C01_complete : forall t indexed defs names ns out syms b,
+  parse_defs t = Some defs -> no_param_assign defs = true ->
+  syms_distinct ns -> data_canonical ns ->
+  denote indexed defs names ns = DOk out syms ->
+  (budget_total names ns <= b)%nat ->
+  exists n, assemble indexed defs names ns b = Some (out, syms, n) /\ (n <= budget_total names ns)%nat.
+Proof. exact C01Complete.C01_complete_text. Qed.
+
+Theorem C01_complete_rules : forall indexed defs names ns out syms b,
+  syms_distinct ns -> defs_ok defs = true -> pats_ok defs = true -> data_canonical ns ->
+  denote indexed defs names ns = DOk out syms ->
+  (budget_total names ns <= b)%nat ->
+  exists n, assemble indexed defs names ns b = Some (out, syms, n) /\ (n <= budget_total names ns)%nat.
+Proof. exact C01Complete.C01_complete. Qed.
+
+(* the bound is needed and tight: a program of chain 0 that fails at budget 2 = bound - 1 *)
+Theorem C01_complete_needs_budget :
+  exists indexed defs names ns out syms B, denote indexed defs names ns = DOk out syms /\
+    budget_bound names ns = Some B /\ assemble indexed defs names ns (B - 1) = None.
+Proof. exact C01Complete.C01_complete_needs_budget. Qed.
